@@ -441,6 +441,9 @@ func corpus() []gcase {
 	add("directed empty-code", &spec{mode: "call", code: nil, gas: 21000, value: big.NewInt(1)})
 	createBoundaryCases(add)
 	boundaryCases(add)
+	opcodeTourCases(add)
+	precompileCallCases(add)
+	entryPointCases(add)
 	return cs
 }
 
@@ -495,6 +498,11 @@ func (p *P) Generate(g *hx.Gen) {
 		g.Count("gen:directed")
 		emit(gc)
 	}
+	for _, c := range precompileOps(g.Rng, g.Count) {
+		g.Count("gen:directed-precompile")
+		g.Case(c[0], append([]string{hx.CaseOp()}, c[1:]...), true)
+	}
+	g.Case("directed upgrade", []string{hx.CaseOp(), "upgrade"}, false)
 	n := g.Pick(1500, 60000)
 	for i := 0; i < n; i++ {
 		sp := &spec{mode: "call", gas: pr.gas(), value: pr.value()}
@@ -524,6 +532,19 @@ func (p *P) Generate(g *hx.Gen) {
 		if pr.pick(10) == 0 {
 			sp.token = true
 		}
+		if sp.mode == "call" && pr.pick(5) == 0 {
+			sp.mode = "utxocall"
+			kind += "/utxocall"
+		}
+		if pr.pick(25) == 0 {
+			sp.norec = true
+		}
+		if pr.pick(25) == 0 {
+			sp.preimg = true
+		}
+		if pr.pick(30) == 0 {
+			sp.cancel = 1 + pr.pick(40)
+		}
 		if pr.pick(3) == 0 {
 			sp.input = make([]byte, pr.pick(68))
 			pr.r.Read(sp.input)
@@ -531,4 +552,13 @@ func (p *P) Generate(g *hx.Gen) {
 		g.Count("gen:" + kind)
 		emit(gcase{kind, []*spec{sp}})
 	}
+	// census: which opcodes were really executed (the driver checks the list against the regenerated table)
+	var seen []byte
+	for i, n := range opSeen {
+		if n > 0 {
+			seen = append(seen, byte(i))
+			g.Count("opcodes-executed")
+		}
+	}
+	g.Case("census opcodes executed", []string{hx.CaseOp(), "opsseen list=" + hx.Hex(seen)}, true)
 }
